@@ -862,108 +862,83 @@ impl FormatString {
         Ok((FormatPart::Literal(result_string), ""))
     }
 
-    fn parse_part_in_brackets(text: &str) -> Result<FormatPart, FormatParseError> {
-        let mut chars = text.chars().peekable();
-
-        let mut left = String::new();
-        let mut right = String::new();
-
-        let mut split = false;
-        let mut selected = &mut left;
-        let mut inside_brackets = false;
-
-        while let Some(char) = chars.next() {
-            if char == '[' {
-                inside_brackets = true;
-
-                selected.push(char);
-
-                while let Some(next_char) = chars.next() {
-                    selected.push(next_char);
-
-                    if next_char == ']' {
-                        inside_brackets = false;
-                        break;
-                    }
-                    if chars.peek().is_none() {
-                        return Err(FormatParseError::MissingRightBracket);
-                    }
-                }
-            } else if char == ':' && !split && !inside_brackets {
-                split = true;
-                selected = &mut right;
-            } else {
-                selected.push(char);
-            }
-        }
-
-        // before the comma is a keyword or arg index, after the comma is maybe a spec.
-        let arg_part: &str = &left;
-
-        let format_spec = if split { right } else { String::new() };
-
-        // left can still be the conversion (!r, !s, !a)
-        let parts: Vec<&str> = arg_part.splitn(2, '!').collect();
-        // before the bang is a keyword or arg index, after the comma is maybe a conversion spec.
-        let arg_part = parts[0];
-
-        let conversion_spec = parts
-            .get(1)
-            .map(|conversion| {
-                // conversions are only every one character
-                conversion
-                    .chars()
-                    .exactly_one()
-                    .map_err(|_| FormatParseError::UnknownConversion)
-            })
-            .transpose()?;
-
-        Ok(FormatPart::Field {
-            field_name: arg_part.to_owned(),
-            conversion_spec,
-            format_spec,
-        })
-    }
-
+    /// Parses one replacement field (`text` starts at its opening brace) the way CPython's
+    /// `parse_field` does: the field name runs up to the first `!`, `:` or `}` that is not inside
+    /// square brackets, `!` takes the next character as the conversion whatever it is, and the
+    /// format spec runs up to the brace that closes the field (one level of nested braces allowed).
     fn parse_spec(text: &str) -> Result<(FormatPart, &str), FormatParseError> {
-        let mut nested = false;
-        let mut end_bracket_pos = None;
-        let mut left = String::new();
+        let mut chars = text.char_indices();
+        if !matches!(chars.next(), Some((_, '{'))) {
+            return Err(FormatParseError::MissingStartBracket);
+        }
 
-        // There may be one layer nesting brackets in spec
-        for (idx, c) in text.char_indices() {
-            if idx == 0 {
-                if c != '{' {
-                    return Err(FormatParseError::MissingStartBracket);
+        let mut terminator = None;
+        'name: while let Some((idx, c)) = chars.next() {
+            match c {
+                '{' => return Err(FormatParseError::InvalidFormatSpecifier),
+                '[' => loop {
+                    match chars.next() {
+                        Some((_, ']')) => break,
+                        Some(_) => {}
+                        None => return Err(FormatParseError::MissingRightBracket),
+                    }
+                },
+                '}' | ':' | '!' => {
+                    terminator = Some((idx, c));
+                    break 'name;
                 }
-            } else if c == '{' {
-                if nested {
-                    return Err(FormatParseError::InvalidFormatSpecifier);
-                } else {
-                    nested = true;
-                    left.push(c);
-                    continue;
-                }
-            } else if c == '}' {
-                if nested {
-                    nested = false;
-                    left.push(c);
-                    continue;
-                } else {
-                    end_bracket_pos = Some(idx);
-                    break;
-                }
-            } else {
-                left.push(c);
+                _ => {}
             }
         }
-        if let Some(pos) = end_bracket_pos {
-            let (_, right) = text.split_at(pos);
-            let format_part = FormatString::parse_part_in_brackets(&left)?;
-            Ok((format_part, &right[1..]))
-        } else {
-            Err(FormatParseError::UnmatchedBracket)
+        let Some((name_end, mut terminator)) = terminator else {
+            return Err(FormatParseError::UnmatchedBracket);
+        };
+        let field_name = text[1..name_end].to_owned();
+
+        let mut conversion_spec = None;
+        if terminator == '!' {
+            let Some((_, conversion)) = chars.next() else {
+                return Err(FormatParseError::UnknownConversion);
+            };
+            conversion_spec = Some(conversion);
+            terminator = match chars.next() {
+                Some((_, c @ ('}' | ':'))) => c,
+                Some(_) => return Err(FormatParseError::UnknownConversion),
+                None => return Err(FormatParseError::UnmatchedBracket),
+            };
         }
+
+        let mut format_spec = String::new();
+        if terminator == ':' {
+            let mut nested = false;
+            loop {
+                match chars.next() {
+                    Some((_, '{')) if nested => {
+                        return Err(FormatParseError::InvalidFormatSpecifier)
+                    }
+                    Some((_, '{')) => nested = true,
+                    Some((_, '}')) if nested => nested = false,
+                    Some((_, '}')) => break,
+                    Some(_) => {}
+                    None => return Err(FormatParseError::UnmatchedBracket),
+                }
+            }
+            let spec_end = text.len() - chars.as_str().len() - 1;
+            let spec_start = match conversion_spec {
+                Some(conversion) => name_end + 1 + conversion.len_utf8() + 1,
+                None => name_end + 1,
+            };
+            format_spec.push_str(&text[spec_start..spec_end]);
+        }
+
+        Ok((
+            FormatPart::Field {
+                field_name,
+                conversion_spec,
+                format_spec,
+            },
+            chars.as_str(),
+        ))
     }
 }
 
